@@ -2,10 +2,12 @@
 """Run /repo's suite (guard off) and compare with the stable_pass list of BASELINE.json."""
 import json, subprocess, sys, os, xml.etree.ElementTree as ET
 out = sys.argv[1] if len(sys.argv) > 1 else "/tmp/baseline.junit.xml"
-env = dict(os.environ, NUMBA_CACHE_DIR="/tmp/nbcache_baseline")
+repo = sys.argv[2] if len(sys.argv) > 2 else "/repo"
+cache = "/tmp/nbcache_baseline_" + str(os.getpid())
+env = dict(os.environ, NUMBA_CACHE_DIR=cache, PYTHONPATH=repo)
 env.pop("PYXEM_ORIX_VERIF", None)
 subprocess.run(["/venv/bin/python", "-m", "pytest", "-q", "-p", "no:cacheprovider", "--timeout=900",
-                "--continue-on-collection-errors", "-n", "8", f"--junitxml={out}"], cwd="/repo", env=env,
+                "--continue-on-collection-errors", "-n", "8", f"--junitxml={out}"], cwd=repo, env=env,
                stdout=subprocess.DEVNULL, stderr=subprocess.DEVNULL)
 res = {}
 for tc in ET.parse(out).getroot().iter("testcase"):
@@ -18,5 +20,5 @@ notpass = [t for t in sp if res.get(t) != "pass"]
 print(f"stable_pass={len(sp)} passing_now={len(sp) - len(notpass)}")
 for t in notpass[:40]:
     print("  NOT PASSING:", t, res.get(t))
-import shutil; shutil.rmtree("/tmp/nbcache_baseline", ignore_errors=True)
+import shutil; shutil.rmtree(cache, ignore_errors=True)
 sys.exit(1 if notpass else 0)
